@@ -281,6 +281,8 @@ func genTxnScriptF(g *Gen, native, hack, pad bool, steps int, flavor string) []s
 			switch {
 			case flavor == "c18":
 				t.lines = append(t.lines, fmt.Sprintf("prop.c18.load a %s %s %d %s", t.snapshot(), ls, t.now(), cut))
+			case flavor == "c01" && native:
+				t.lines = append(t.lines, fmt.Sprintf("prop.c01.load a %s %s %d %s", t.snapshot(), ls, t.now(), cut))
 			case flavor == "c04":
 				t.lines = append(t.lines, fmt.Sprintf("prop.c04.load a %s %s %d %s", t.snapshot(), ls, t.now(), cut))
 			case flavor == "c11" && !native:
@@ -323,6 +325,9 @@ func genTxnFlavor(flavor string) func(g *Gen, n int) {
 			native := g.R.Intn(2) == 0
 			if flavor == "c11" {
 				native = false
+			}
+			if flavor == "c01" {
+				native = true
 			}
 			hack := !native && g.R.Intn(3) == 0
 			pad := g.R.Intn(4) == 0
